@@ -76,6 +76,21 @@ theorem read_retag_skips (rd : Ty → Bytes → Option (GoVal × Bytes)) (defs :
       readFieldsWith rd defs g rest cur seen :=
   read_step_mistyped rd defs g id j f u rest cur seen hid hf hne hwf hd
 
+/-- **Unknown fields anywhere do not disturb Read** (the schema-evolution core shared with C09):
+for every accepted schema, every struct-like and every well-typed object with written fields `ws`,
+there is ONE object that the generated Read produces from `ws` interleaved with any number of
+unknown-id fields at any positions (each well-formed, nesting ≤ 64) — in particular the same object
+as from the undisturbed encoding — and that object re-encodes to exactly `ws`. -/
+theorem read_skips_unknown_anywhere (P : Prog) (hP : SchemaOK P) (hv : P.validateSet = false) (i : Nat)
+    (sd : StructDef) (fs : List GoVal) (ws : List (Nat × WVal)) (f : Nat) (hsd : P.structs[i]? = some sd)
+    (hwt : WTFields P.structs sd.fields fs) (hw : toWFields P sd.fields fs = .ok ws) (hd : depthFields ws ≤ f) :
+    ∃ fs', toWFields P sd.fields fs' = .ok ws ∧
+      ∀ (ms : List (Nat × WVal)) (r : Bytes), Mixed sd.fields ws ms →
+        readTy P.structs (f + 1) (.struct i) (encFields ms ++ 0 :: r) = some (.strct fs', r) ∧
+        readTy P.structs (f + 1) (.struct i) (encFields ws ++ 0 :: r) = some (.strct fs', r) := by
+  obtain ⟨fs', h1, h2⟩ := struct_read_mixed P hP hv i sd fs ws f hsd hwt hw hd
+  exact ⟨fs', h1, fun ms r hm => ⟨h2 ms r hm, h2 ws r (Mixed.refl _ ws)⟩⟩
+
 /-- **Read fails when a required field is absent**: at STOP the loop succeeds iff every required
 field's isset flag is up (and a flag is only ever raised by reading that field with its own type). -/
 theorem read_required_missing (rd : Ty → Bytes → Option (GoVal × Bytes)) (defs : List FieldDef) (g : Nat)
